@@ -73,6 +73,22 @@ def run(repo, rep, tier):
     L.option_defaults_rule(repo, rep, "R10.1", ("implicit_i18n_translate",))
     L.option_forwarded_rule(repo, rep, "R10.1", ("implicit_i18n_attributes",))
     L.whitelist_rule(repo, rep, "R10.1", ("chameleon.i18n",))
+    # the names in implicit_i18n_attributes are lower-case by contract:
+    # the attribute's name is compared in lower case
+    can = repo.func("chameleon.zpt.program.MacroProgram."
+                    "_create_attributes_nodes")
+    mem = [c for c in ast.walk(can.node) if isinstance(c, ast.Compare)
+           and len(c.ops) == 1 and isinstance(c.ops[0], (ast.In, ast.NotIn))
+           and src(c.comparators[0]) == "self.implicit_i18n_attributes"]
+    rep.check(bool(mem) and all(src(c.left).endswith(".lower()")
+                                for c in mem), "R10.1", can.qualname,
+              "an attribute is looked up among the implicitly translated "
+              "ones by its lower-case name", construct="implicit-name-lower",
+              where=L.where(can), detail="; ".join(src(c) for c in mem))
+    # an i18n:name of blanks names nothing (C09 owns the element details)
+    from . import c09 as _c09
+    L.borrow(repo, rep, "R10.4", "C09", _c09.element_details,
+             ("blank-clause-empty",))
     L.innermost_rule(repo, rep, "R10.4", ("chameleon.compiler.Compiler",
                                             "chameleon.zpt.program.MacroProgram"),
                      only=("_translations", "_implicit_translation"))
